@@ -86,6 +86,16 @@ CHECKS = {
          "set only); symbolic-θ optimality of α returned unknown in nlsat and is replaced by the θ grid",
     technique="symbolic execution with solver stubs (program extraction) + SMT (QF_NRA); concrete oracle comparison",
     design_ref="DESIGN.md §3 C17"),
+ "C11": dict(
+    text="Bounded symbolic model checking of the real is_pt_in_extended_polytope / line_seg_pt_intersect_at_dim edge search "
+         "for an arbitrary symbolic point against a normalised rectangle with symbolic aspect ratio under each 2-D cone of "
+         "the grid: True ⇒ no separating direction exists (soundness), False ⇒ no dominated point with margin exists "
+         "(completeness, 2x2 cones) — both as refutations of an existential certificate on every path; check_dominates' "
+         "vertex loop checked by call-structure identity for all cones incl. 3-D and K>m.",
+    note=REAL + "θ grid (angles between grid points outside); translation/scale invariance used to normalise R2 (validated "
+         "concretely); separating-hyperplane theorem and convexity of R2+C trusted; 3-D point level only on concrete samples",
+    technique="symbolic execution of the real numpy code on z3 reals + SMT (QF_NRA) per path",
+    design_ref="DESIGN.md §3 C11"),
 }
 
 _WIP = "check not built yet (work in progress; will be claimed once its harness exists)"
